@@ -48,6 +48,7 @@ ASSUMPTIONS = [
     "string values contain only characters legal in XML 1.0",
     "URLs follow scheme://netloc/path?query without dot segments or empty interior segments",
     "non-ASCII decimal digits (accepted by Python int()) are outside the model",
+    "integers beyond CPython's 4300-digit str() limit are outside the decode clause: coerce_upnp itself raises ValueError there (a CPython limit, not generated)",
     "float(repr(x)) == x (C08's single float assumption RoundTrips; floats are otherwise abstract: repr/float()/<= tables per case)",
     "an object of no modelled class (list, bytes, dict, ...) is represented as None: like None it fails every isinstance test",
 ]
